@@ -212,7 +212,10 @@ def tail(h):
     env = {"self": self, "y_test_pred_B": arr("y_model_draw"), "z_test_pred_B": env1["z_test_pred_B"], "y_partial_reporting_lower": yb[0], "y_partial_reporting_upper": yb[1], "z_partial_reporting_lower": zb[0], "z_partial_reporting_upper": zb[1], "weights_test": V(w, (fr.axis, ONE)), "contest_indicator": _Opq()}
     for nm in ("residuals_y", "residuals_z", "epsilon_y_hat", "epsilon_z_hat", "x_test_strata", "stratum_ppfs_delta_y", "stratum_ppfs_delta_z", "aggregate_indicator_train", "aggregate_indicator_test"):
         env[nm] = _Opq()
-    k, out = h.slice(f"{BEM}.compute_bootstrap_errors", first_assign="y_test_pred_B", first_is_last_assignment=True, last_assign="self.ran_bootstrap", env=env)
+    # the tail starts right after the last compound statement that still modifies the margin draws (the presidential
+    # correction block): whatever happened to them before -- model draws, blend with the extrapolation, correction -- is
+    # arbitrary here, so the range clauses rest on what the tail itself does (the final clip)
+    k, out = h.slice(f"{BEM}.compute_bootstrap_errors", after_last_compound_storing="y_test_pred_B", last_assign="self.ran_bootstrap", env=env)
     if k == "raise":
         return h.fail("tail.no_raise", f"raised {out}")
     rows = z3.And(*fr.axis.facts(), *draws.facts())
